@@ -124,10 +124,67 @@ def build_external_interface_output(compiler_data: CompilerData) -> str:
     return out
 
 
+def _interface_types_in(typ, acc: OrderedSet) -> None:
+    # collect the interface types mentioned (at any depth) by a type
+    from vyper.semantics.types.module import InterfaceT
+
+    if typ is None:
+        return
+    if isinstance(typ, InterfaceT):
+        if typ not in acc:
+            acc.add(typ)
+            for fn_t in typ.functions.values():
+                for arg in fn_t.arguments:
+                    _interface_types_in(arg.typ, acc)
+                _interface_types_in(fn_t.return_type, acc)
+        return
+    for attr in ("value_type", "key_type"):
+        _interface_types_in(getattr(typ, attr, None), acc)
+    members = getattr(typ, "member_types", None)
+    if isinstance(members, dict):
+        members = members.values()
+    for t in members or ():
+        _interface_types_in(t, acc)
+
+
 def build_interface_output(compiler_data: CompilerData) -> str:
     module_t = compiler_data.annotated_vyper_module._metadata["type"]
     interface = module_t.interface
     out = ""
+
+    # events / errors that are transitively reachable from exposed functions
+    events: OrderedSet[EventT] = OrderedSet(interface.events.values())
+    events.update(module_t.used_events)
+    errors: OrderedSet[ErrorT] = OrderedSet(interface.errors.values())
+    errors.update(module_t.used_errors)
+
+    # interface types mentioned by anything we print must be declared in the
+    # output, otherwise the output is not valid compiler input
+    used_interfaces: OrderedSet = OrderedSet()
+    for struct in interface.structs.values():
+        for member_type in struct.members.values():
+            _interface_types_in(member_type, used_interfaces)
+    for item in list(events) + list(errors):
+        for typ in item.arguments.values():
+            _interface_types_in(typ, used_interfaces)
+    for func in interface.functions.values():
+        if func.visibility == FunctionVisibility.INTERNAL or func.name == "__init__":
+            continue
+        for arg in func.arguments:
+            _interface_types_in(arg.typ, used_interfaces)
+        _interface_types_in(func.return_type, used_interfaces)
+
+    if len(used_interfaces) > 0:
+        out += "# Interfaces\n\n"
+        for iface_t in used_interfaces:
+            out += f"interface {iface_t._id}:\n"
+            for fn_t in iface_t.functions.values():
+                args = ", ".join([f"{arg.name}: {arg.typ}" for arg in fn_t.arguments])
+                return_value = f" -> {fn_t.return_type}" if fn_t.return_type is not None else ""
+                out += f"    def {fn_t.name}({args}){return_value}: {fn_t.mutability.value}\n"
+            if len(iface_t.functions) == 0:
+                out += "    pass\n"
+            out += "\n\n"
 
     if len(interface.structs) > 0:
         out += "# Structs\n\n"
@@ -145,10 +202,6 @@ def build_interface_output(compiler_data: CompilerData) -> str:
                 out += f"    {flag_value}\n"
             out += "\n\n"
 
-    # include events that are transitively reachable from exposed functions
-    events: OrderedSet[EventT] = OrderedSet(interface.events.values())
-    events.update(module_t.used_events)
-
     if len(events) > 0:
         out += "# Events\n\n"
         for event in events:
@@ -157,9 +210,6 @@ def build_interface_output(compiler_data: CompilerData) -> str:
                 for (name, typ), indexed in zip(event.arguments.items(), event.indexed)
             )
             out += f"event {event.name}:\n    {encoded_args if event.arguments else 'pass'}\n\n\n"
-
-    errors: OrderedSet[ErrorT] = OrderedSet(interface.errors.values())
-    errors.update(module_t.used_errors)
 
     if len(errors) > 0:
         out += "# Errors\n\n"
